@@ -75,6 +75,9 @@ Step(e) ==
         items == (IF a[3] # "" THEN <<[diag |-> a[3], opname |-> e.op]>> ELSE <<>>)
                  \o (IF e.op = "ins" /\ e.res = "ok" /\ (~e.idok \/ e.idlen # e.len)
                      THEN <<[diag |-> "heap-id-malformed", opname |-> e.op]>> ELSE <<>>)
+                 \* a refused insert changes nothing: in particular it does not restructure the heap
+                 \o (IF e.op = "ins" /\ e.res = "err" /\ Has(e, "indbefore") /\ ~e.indbefore /\ e.indirect
+                     THEN <<[diag |-> "refused-insert-restructured-the-heap", opname |-> e.op, len |-> e.len]>> ELSE <<>>)
                  \o (IF e.op \in {"write", "load"} /\ e.res # "ok"
                      THEN <<[diag |-> e.op \o "-failed", opname |-> e.op, indirect |-> e.indirect, msg |-> e.msg]>> ELSE <<>>)
                  \o ProjItems(e, m, g, fz)
